@@ -253,6 +253,78 @@ def run_wire(hist, server, resolve_state=None):
     return out
 
 
+def closing_handshake_case(workdir, cfg, order=("A", "B", "C"), adds=2):
+    """Real process, real TCP: subscribers A (side s1), B (side s2), C (side s1, second connection) on one mailbox,
+    opened in the given order.  The server process is stopped (SIGSTOP), A sends a websocket Close frame and B an
+    `add`, the process continues: both arrive in one reactor round, so the add is processed while A's closing
+    handshake is under way (autobahn state CLOSING, connection not lost yet).  B must get its ack and its own
+    message, C the message, and B's connection must stay usable.
+    -> (problems, observed)"""
+    import signal
+    srv = WireServer(workdir, cfg)
+    conns = {}
+    problems, observed = [], {}
+
+    def read_until_pong(ws, tok, timeout=5.0):
+        ws.s.settimeout(timeout)
+        got = []
+        try:
+            while True:
+                f = ws.recv_json()
+                if f.get("type") == "pong" and f.get("pong") == tok:
+                    return got, None
+                got.append(strip(f))
+        except EOFError as e:
+            return got, "connection closed by the server"
+        except Exception as e:
+            return got, "no answer (%s)" % type(e).__name__
+
+    try:
+        sides = {"A": "s1", "B": "s2", "C": "s1"}
+        for name in order:
+            ws = RawWS(srv.port)
+            ws.recv_json()
+            ws.send_text(json.dumps({"type": "bind", "appid": "app", "side": sides[name]}))
+            ws.send_text(json.dumps({"type": "open", "mailbox": "mbx"}))
+            ws.send_text(json.dumps({"type": "ping", "ping": "o"}))
+            read_until_pong(ws, "o")
+            conns[name] = ws
+        for ws in conns.values():      # drain
+            ws.send_text(json.dumps({"type": "ping", "ping": "d"}))
+            read_until_pong(ws, "d")
+        os.kill(srv.p.pid, signal.SIGSTOP)
+        try:
+            time.sleep(0.05)
+            conns["A"]._send_frame(0x8, struct.pack(">H", 1000))
+            time.sleep(0.05)
+            for i in range(adds):
+                conns["B"].send_text(json.dumps({"type": "add", "phase": "p%d" % i, "body": "w%d" % i, "id": "a%d" % i}))
+            conns["B"].send_text(json.dumps({"type": "ping", "ping": "after"}))
+            time.sleep(0.05)
+        finally:
+            os.kill(srv.p.pid, signal.SIGCONT)
+        gotB, errB = read_until_pong(conns["B"], "after")
+        observed["B"] = gotB + ([errB] if errB else [])
+        if errB:
+            problems.append("the adding connection: %s" % errB)
+        bodies = [f.get("body") for f in gotB if f.get("type") == "message"]
+        want = ["w%d" % i for i in range(adds)]
+        if bodies != want:
+            problems.append("the adding connection received messages %r, expected %r" % (bodies, want))
+        if "C" in conns:
+            conns["C"].send_text(json.dumps({"type": "ping", "ping": "after"}))
+            gotC, errC = read_until_pong(conns["C"], "after")
+            observed["C"] = gotC + ([errC] if errC else [])
+            bodiesC = [f.get("body") for f in gotC if f.get("type") == "message"]
+            if errC or bodiesC != want:
+                problems.append("another subscriber received messages %r, expected %r (%s)" % (bodiesC, want, errC))
+        return problems, observed
+    finally:
+        for ws in conns.values():
+            ws.close()
+        srv.stop()
+
+
 # ---------------------------------------------------------------------------
 # syscall-order checker (C09)
 
